@@ -12,6 +12,7 @@ import (
 	"os"
 	"strings"
 	"testing"
+	"time"
 
 	regv1 "github.com/google/go-containerregistry/pkg/v1"
 	"github.com/spf13/afero"
@@ -41,6 +42,7 @@ import (
 	"github.com/crossplane/crossplane/internal/controller/apiextensions/offered"
 	usagectrl "github.com/crossplane/crossplane/internal/controller/apiextensions/usage"
 	"github.com/crossplane/crossplane/internal/engine"
+	"github.com/crossplane/crossplane/verif/engh"
 	"github.com/crossplane/crossplane/verif/explore"
 	"github.com/crossplane/crossplane/verif/pkgh"
 	"github.com/crossplane/crossplane/verif/report"
@@ -205,30 +207,37 @@ func finish(r *explore.Run, rep *report.R, sc string, trail, faults []string, s 
 
 // ---- H2: XRD, CRDs, dynamic controllers ----------------------------------------------
 
-type recEngine struct {
-	definition.NopEngine
-	c       client.Client
-	running map[string]bool
-	log     *[]string
-	onStop  func(name string)
+// h2Engine is the real ControllerEngine (over harness informers and
+// controllers, package engh) as the XRD reconcilers see it. The periodic
+// watch collector the definition reconciler asks for is replaced by a no-op:
+// its ticker is irrelevant to teardown.
+type h2Engine struct {
+	*engh.Engine
 }
 
-func (e *recEngine) Start(name string, _ ...engine.ControllerOption) error {
-	e.running[name] = true
-	return nil
+type nopCollector struct{}
+
+func (nopCollector) GarbageCollectWatches(context.Context, time.Duration) {}
+
+func (e *h2Engine) Start(name string, o ...engine.ControllerOption) error {
+	return e.Engine.Start(name, append(o, engine.WithWatchGarbageCollector(nopCollector{}))...)
 }
 
-func (e *recEngine) Stop(_ context.Context, name string) error {
-	if e.onStop != nil {
-		e.onStop(name)
+// running: the engine says so, or a controller of that name is in fact still
+// alive (started, context not cancelled).
+func (e *h2Engine) running(name string) bool { return e.IsRunning(name) || e.Live(name) > 0 }
+
+func (e *h2Engine) state(names ...string) string {
+	out := ""
+	for _, n := range names {
+		out += fmt.Sprintf("%s:%v/%d ", n, e.IsRunning(n), e.Live(n))
 	}
-	e.running[name] = false
-	return nil
+	return out
 }
-func (e *recEngine) IsRunning(name string) bool           { return e.running[name] }
-func (e *recEngine) GetCached() client.Client             { return e.c }
-func (e *recEngine) GetUncached() client.Client           { return e.c }
-func (e *recEngine) GetFieldIndexer() client.FieldIndexer { return e.c.(client.FieldIndexer) }
+
+// h2Cleanup releases what the current H2 execution left running (also when
+// the execution is cut short).
+var h2Cleanup func()
 
 var crdGK = schema.GroupKind{Group: "apiextensions.k8s.io", Kind: "CustomResourceDefinition"}
 
@@ -243,7 +252,11 @@ func h2(r *explore.Run, rep *report.R, sc string, depth int, foreignCRD bool, st
 	ctrlOf := map[string]string{xrCRDName: "composite/" + xrd.GetName(), claimCRDName: "claim/" + xrd.GetName()}
 	kindOf := map[string]schema.GroupKind{xrCRDName: xrh.XRGVK.GroupKind(), claimCRDName: xrh.ClaimGVK.GroupKind()}
 	c := s.Client("xrd")
-	eng := &recEngine{c: c, running: map[string]bool{}}
+	eng := &h2Engine{Engine: engh.New(xrh.Scheme, c, c)}
+	eng.Sync = report.Settle
+	h2Cleanup = eng.Shutdown
+	defer func() { eng.Shutdown(); h2Cleanup = nil }()
+	ctrlNames := []string{"composite/" + xrd.GetName(), "claim/" + xrd.GetName()}
 	ca := resource.ClientApplicator{Client: c, Applicator: resource.NewAPIUpdatingApplicator(c)}
 	o := apiextensionscontroller.Options{Options: controller.Options{Logger: logging.NewNopLogger(), Features: &feature.Flags{}}}
 	drec := definition.NewReconciler(ca, definition.WithControllerEngine(eng), definition.WithOptions(o))
@@ -273,7 +286,7 @@ func h2(r *explore.Run, rep *report.R, sc string, depth int, foreignCRD bool, st
 			if n := len(s.All(gk)); n > 0 {
 				r.FailLater("crd/deleted-with-instances/"+gk.Kind, "%s deleted the CRD while %d instance(s) of %s exist", rec.Call, n, gk.Kind)
 			}
-			if eng.running[ctrlOf[rec.Call.Key.Name]] {
+			if eng.running(ctrlOf[rec.Call.Key.Name]) {
 				r.FailLater("crd/deleted-before-controller-stopped/"+gk.Kind, "%s deleted the CRD while controller %s is still running", rec.Call, ctrlOf[rec.Call.Key.Name])
 			}
 		}
@@ -328,8 +341,8 @@ func h2(r *explore.Run, rep *report.R, sc string, depth int, foreignCRD bool, st
 		xrh.Reconcile(orec, nnXRD)
 		establish()
 	}
-	if !foreignCRD && (!eng.running[ctrlOf[xrCRDName]] || !eng.running[ctrlOf[claimCRDName]]) {
-		panic(explore.HarnessError{Msg: fmt.Sprintf("H2 preparation: controllers not started: %v", eng.running)})
+	if !foreignCRD && (!eng.running(ctrlOf[xrCRDName]) || !eng.running(ctrlOf[claimCRDName])) {
+		panic(explore.HarnessError{Msg: fmt.Sprintf("H2 preparation: controllers not started: %v", eng.state(ctrlNames...))})
 	}
 	// One claim bound to one XR, both reconciled by their (dynamic) controllers.
 	cm := xrh.Claim("ns", "c1")
@@ -344,7 +357,7 @@ func h2(r *explore.Run, rep *report.R, sc string, depth int, foreignCRD bool, st
 			xrh.Reconcile(xrec, types.NamespacedName{Name: x.GetName()})
 		}
 	}
-	eng.onStop = func(name string) {
+	eng.OnStop = func(name string) {
 		for crdName, cn := range ctrlOf {
 			if cn != name {
 				continue
@@ -391,10 +404,22 @@ func h2(r *explore.Run, rep *report.R, sc string, depth int, foreignCRD bool, st
 	}
 	inj := &xrh.FaultInjector{Run: r, Filter: func(c simkube.Call) bool { return c.Client == "xrd" }}
 	s.Inj = inj
+	// An informer lookup of the engine (starting or stopping a watch) may
+	// fail, like an API call: one more kind of costed deviation.
+	eng.Cache.Fail = func(gvk schema.GroupVersionKind) bool {
+		if !inj.Armed {
+			return false
+		}
+		if r.Choose(2, "informer-lookup:"+gvk.Kind) == 1 {
+			inj.Taken = append(inj.Taken, "informer lookup of "+gvk.Kind+" fails")
+			return true
+		}
+		return false
+	}
 	events := []string{"definition-reconcile", "offered-reconcile", "xr-reconcile", "claim-reconcile", "user-deletes-xrd", "user-deletes-claim", "gc-step", "crd-cleanup", "third-party-deletes-composite-crd"}
 	var trail []string
 	for step := 0; step < depth; step++ {
-		r.SeenRank(report.Hash(s.Canonical(), eng.running, s.NoMatch), depth-step)
+		r.SeenRank(report.Hash(s.Canonical(), eng.state(ctrlNames...), s.NoMatch), depth-step)
 		ev := events[r.Free(len(events), fmt.Sprintf("ev%d", step))]
 		trail = append(trail, ev)
 		switch ev {
@@ -410,13 +435,13 @@ func h2(r *explore.Run, rep *report.R, sc string, depth int, foreignCRD bool, st
 			establish()
 		case "xr-reconcile":
 			// Only a running controller reconciles its instances.
-			if eng.running[ctrlOf[xrCRDName]] && !s.NoMatch[xrh.XRGVK.GroupKind()] {
+			if eng.running(ctrlOf[xrCRDName]) && !s.NoMatch[xrh.XRGVK.GroupKind()] {
 				for _, x := range s.All(xrh.XRGVK.GroupKind()) {
 					xrh.Reconcile(xrec, types.NamespacedName{Name: x.GetName()})
 				}
 			}
 		case "claim-reconcile":
-			if eng.running[ctrlOf[claimCRDName]] && !s.NoMatch[xrh.ClaimGVK.GroupKind()] {
+			if eng.running(ctrlOf[claimCRDName]) && !s.NoMatch[xrh.ClaimGVK.GroupKind()] {
 				xrh.Reconcile(crec, nnClaim)
 			}
 		case "user-deletes-xrd":
@@ -437,7 +462,7 @@ func h2(r *explore.Run, rep *report.R, sc string, depth int, foreignCRD bool, st
 			}
 		}
 		r.Raise()
-		r.Logf("step %d: %s -> xrd=%s running=%v xrs=%d claims=%d", step, ev, describeObj(s.Peek(xrdKey)), eng.running, len(s.All(xrh.XRGVK.GroupKind())), len(s.All(xrh.ClaimGVK.GroupKind())))
+		r.Logf("step %d: %s -> xrd=%s running=%v xrs=%d claims=%d", step, ev, describeObj(s.Peek(xrdKey)), eng.state(ctrlNames...), len(s.All(xrh.XRGVK.GroupKind())), len(s.All(xrh.ClaimGVK.GroupKind())))
 	}
 	finish(r, rep, sc, trail, inj.Taken, s)
 }
@@ -601,9 +626,9 @@ var _ = reference.Claim{}
 func TestCheck(t *testing.T) {
 	rep := report.New("C08", "model_checking")
 	rep.Meta(
-		"Four closed sub-systems, each searched by depth-bounded DFS with state-hash pruning over event sequences; every event is a transition executed by the real code. H1 (claim + XR + a dependent with a provider finalizer; Background and Foreground policy; both syncers): events {claim reconcile with an API fault or crash at any call, XR reconcile, user deletes the claim, user deletes the XR, one garbage-collector step (which one is a choice), the provider finalizes the dependent}. H2 (XRD with the real definition and offered reconcilers and a recording engine, one bound claim + XR whose controllers only run while the engine says so; composite CRD ours or foreign): events {definition / offered reconcile with a fault at any call, XR / claim reconcile, user deletes the XRD / the claim, a third party deletes the composite CRD, gc step, crd-cleanup}; the API-server side establishes CRDs, and a CRD whose deletion was requested carries the customresourcecleanup finalizer and stays terminating until the crd-cleanup event (the API server's CRD finalizer: delete the instances, release the CRD once none is left) has seen every instance go; start states: steady, XRD deletion already requested and reconciled once, composite CRD deleted by a third party. H3 (package revision + dependency Lock, real revision reconciler and PackageDependencyManager): {reconcile with an API error at any call, user deletes the revision, deactivate, gc step}. H4 (composed Usage + using + used resource, real usage reconciler): {reconcile with fault/crash, delete usage / using / used, gc step}. Monitors at every write: claim finalizer removed only after an XR delete was issued (Foreground: XR gone); CRD deleted only with no instances and a stopped controller; controller stopped only with no instances (when the CRD is ours); XRD finalizers removed only when the CRD is gone or never ours; revision finalized only when out of the Lock; composed Usage finalized only when the using resource is gone.",
+		"Four closed sub-systems, each searched by depth-bounded DFS with state-hash pruning over event sequences; every event is a transition executed by the real code. H1 (claim + XR + a dependent with a provider finalizer; Background and Foreground policy; both syncers): events {claim reconcile with an API fault or crash at any call, XR reconcile, user deletes the claim, user deletes the XR, one garbage-collector step (which one is a choice), the provider finalizes the dependent}. H2 (XRD with the real definition and offered reconcilers on the real ControllerEngine - over harness informers and controllers whose context tells whether they were stopped; an informer lookup of the engine may fail like an API call -, one bound claim + XR whose controllers only run while the engine says so; composite CRD ours or foreign): events {definition / offered reconcile with a fault at any call, XR / claim reconcile, user deletes the XRD / the claim, a third party deletes the composite CRD, gc step, crd-cleanup}; the API-server side establishes CRDs, and a CRD whose deletion was requested carries the customresourcecleanup finalizer and stays terminating until the crd-cleanup event (the API server's CRD finalizer: delete the instances, release the CRD once none is left) has seen every instance go; start states: steady, XRD deletion already requested and reconciled once, composite CRD deleted by a third party. H3 (package revision + dependency Lock, real revision reconciler and PackageDependencyManager): {reconcile with an API error at any call, user deletes the revision, deactivate, gc step}. H4 (composed Usage + using + used resource, real usage reconciler): {reconcile with fault/crash, delete usage / using / used, gc step}. Monitors at every write: claim finalizer removed only after an XR delete was issued (Foreground: XR gone); CRD deleted only with no instances and a stopped controller; controller stopped only with no instances (when the CRD is ours); XRD finalizers removed only when the CRD is gone or never ours; revision finalized only when out of the Lock; composed Usage finalized only when the using resource is gone.",
 		[]string{"simkube models the API server; the Kubernetes garbage collector acts only through explicit gc-step events", "a dynamic controller reconciles its instances only while the (recording) engine reports it running", "reconciles are atomic events except for the one injected fault / crash"},
-		[]string{"simkube", "fake controller engine (records Start/Stop)"},
+		[]string{"simkube", "real ControllerEngine over fake informers / controllers (package engh)"},
 	)
 	depth := 5
 	if report.Thorough() {
@@ -631,6 +656,11 @@ func TestCheck(t *testing.T) {
 				name += "/start=" + start
 			}
 			add(name, func(r *explore.Run) { h2(r, rep, name, depth, foreign, start) })
+			scs[len(scs)-1].OnCut = func() {
+				if h2Cleanup != nil {
+					h2Cleanup()
+				}
+			}
 		}
 	}
 	add("H3/revision-lock", func(r *explore.Run) { h3(r, rep, "H3/revision-lock", depth) })
